@@ -110,6 +110,8 @@ def _res(h, name):
 
 def _operand(node, h):
     """FOL operand: nested constraint spec (has 'type') or raw expression (has 'op')."""
+    if "ref" in node:
+        return h.constraints[node["ref"]]  # the same constraint object used as an operand once more
     if "type" in node:
         return make_constraint(node, h)
     return expr(node, h)
